@@ -33,7 +33,7 @@ CHECKS = {
             'Held on the complete (K 1..12, d 1..3, r 0..K, g 0..len(gamma)) sweep and on adversarial real mask vectors (0, negative, 1e30, 3e38, threshold values) on random programs.',
             'NaN/inf not assigned; frozen time maskers not assigned', '5/C08'),
     'C09': ('program-level reference R-alive vs five independent reports per layer + dynamic pre-hook zero check + exported forward',
-            'Held on all 36 concat origin combinations x consumers x families and on random DAGs / excluded layers / user-placed layers; the PIT masker-sharing defects found (excluded layers, sums with / depthwise after a concat, concat into an output) were repaired.',
+            'Held on all 36 concat origin combinations x consumers x families and on random DAGs / excluded layers / user-placed layers; the PIT masker-sharing defects found (excluded layers, sums with / depthwise after a concat, concat into an output) were repaired. The README's autoconvert-off usage (a standard layer behind a user-placed PIT layer) is a known finding.',
             'R-alive takes each layer\'s own binarised mask as given; dynamic check one-sided', '5/C09'),
     'C10': ('history + offline checker: class-level wrappers on the sampling functions log every sampling event (generated histories and the repository MPS / SuperNet tests as a workload); rules of the statement applied per event; summary/export vs R-select at the end of each history',
             'Held on every recorded sampling event of random option/forward interleavings on stand-alone quantizers / combiners and whole models; SuperNet soft-in-eval is a known finding.',
@@ -66,7 +66,7 @@ CHECKS = {
             'Held on all 1325 (epoch, n_epochs<=50) pairs x cost placements x strength modes, BaseRegularizer, and real PIT models.',
             'positive final strengths read as positive and finite', '5/C19'),
     'C20': ('direct + in-situ contract on _reassign_precisions (exhaustive small matrices, all compositions), wrapper on _compute_cost recording every evaluated configuration, and end-to-end histories of optimize_prec_assignment with the NE16 cost, incl. a second application to its own result',
-            'Held on every explored case: exhaustive small score matrices x all compositions (counts met, one precision per channel) and end-to-end refinements of per-channel NE16 models incl. 33..72-channel layers (promotion only, counts == chosen counts, chosen configuration is a cheapest evaluated one, cost not higher). The four defect mechanisms found on the pinned tree were repaired (5bae6ad, 5521313, eda93e6).',
+            'Held on every explored case: exhaustive small score matrices x all compositions (counts met, one precision per channel) and end-to-end refinements of per-channel NE16 models incl. 33..72-channel layers (promotion only, counts == chosen counts, chosen configuration is a cheapest evaluated one, cost not higher). The four defect mechanisms found on the pinned tree were repaired (5bae6ad, 5521313, eda93e6). One mechanism on the unchanged tree is a known finding: two layers sharing one weight quantizer (conv + depthwise, >= 33 channels) are refined one after the other.',
             'bit-widths read from summary(); chosen counts observed at the call boundary of the reassignment step', '5/C20'),
 }
 NOT_BUILT = {}
